@@ -70,7 +70,7 @@ def fixed_specs():
             yield {'start': start, 'ops': [{'o': 'fillmax', 'seed': 3}, {'o': 'read', 'triples': [[-1, None, 1]]}, {'o': 'trunc', 'i': -1, 'by': 'obj'},
                                             {'o': 'append', 'item': {'n': 2, 'seed': 4, 'form': 'nd'}}, {'o': 'fillmax', 'seed': 5}, {'o': 'reopen', 'm': 'r+'},
                                             {'o': 'append', 'item': {'n': 0, 'seed': 6, 'form': 'nd'}}]}
-            for style in ('append', 'iter', 'iter-gen', 'iter-many'):
+            for style in ('append', 'iter', 'iter-gen', 'iter-many', 'iter-ndarray'):
                 for over in (1, 130):
                     # an append that does not fit the index type, then the array is used on (truncated, appended to, filled exactly)
                     yield {'start': start, 'ops': [{'o': 'append', 'item': {'n': 100, 'seed': 7, 'form': 'nd'}}, {'o': 'overfill', 'style': style, 'over': over, 'seed': 8},
